@@ -76,6 +76,8 @@ def gen_dataset(rng: random.Random, n_max: int = 6, m_max: int = 6, n_min: int =
         rankings[j] = [list(b) for b in rankings[i]]
         for b in rankings[j]:
             rng.shuffle(b)
+    if allow_empty and not complete and rng.random() < 0.12:
+        rankings.insert(rng.randrange(len(rankings) + 1), [])  # an empty ranking is a legal input
     if not any(b for r in rankings for b in r):
         rankings[0] = [[pool[0]]]
     spec = {"rankings": rankings, "as_elements": rng.random() < 0.3,
@@ -118,6 +120,17 @@ def gen_cyclic_blocks_dataset(rng: random.Random, sizes=None) -> dict:
     sizes = sizes or rng.choice([[4, 3], [3, 4], [3, 3], [3], [4], [3, 2, 3]])
     n = sum(sizes)
     kind, pool_name, pool = pick_pool(rng, n)
+    if rng.random() < 0.25:
+        # str names where one whole block is integer-like ("07", "10", "2") next to alphabetic names: the block's
+        # projection is a dataset of ints
+        digits = ["07", "10", "2", "33", "5", "012", "8"]
+        alpha = ["b", "x", "k", "zz", "q", "a1", "m"]
+        which = rng.randrange(len(sizes))
+        pool, pool_name = [], "mixeddigit-blocks"
+        for bi, sz in enumerate(sizes):
+            src = digits if bi == which else alpha
+            pool += src[:sz]
+            src[:] = src[sz:]
     blocks, at = [], 0
     for sz in sizes:
         blocks.append(pool[at:at + sz])
@@ -173,6 +186,22 @@ def scale(s: dict, k: float) -> dict:
 def gen_scheme(rng: random.Random, dyadic: bool = True) -> dict:
     """Valid scheme: B0=0, B1>0, B3<=B4, T0=T1, T2=0, T3=T4, all >= 0. Dyadic k/8 values keep sums exact."""
     fam = rng.random()
+    if rng.random() < 0.1:
+        # B of a preset (what the library's own equivalence test looks at) with a free valid T, and the converse
+        base = preset(rng.choice(PRESETS), rng.choice([0.5, 1.0, 0.25]))
+        vals = [0, 1, 2, 4, 8, 3] if dyadic else [0, 0.1, 0.3, 1, 0.7]
+        div = 8.0 if dyadic else 1.0
+        g = lambda: rng.choice(vals) / div
+        if rng.random() < 0.7:
+            t0, t3 = g(), g()
+            s = {"B": base["B"], "T": [t0, t0, 0.0, t3, t3, g()], "family": "presetB-freeT"}
+        else:
+            b1 = 0
+            while b1 == 0:
+                b1 = g()
+            b3, b4 = sorted([g(), g()])
+            s = {"B": [0.0, b1, g(), b3, b4, g()], "T": base["T"], "family": "freeB-presetT"}
+        return s
     if not dyadic and fam < 0.2:
         # near-degenerate: a tie costs almost exactly the same as an order (several optima a few 1e-6 apart)
         eps = rng.choice([4e-6, -3e-6, 2e-5, 7e-6])
@@ -229,6 +258,20 @@ def gen_starters(rng: random.Random, pool=None) -> List[dict]:
         return [dict(x) for x in base] + extra
     k = rng.choice([1, 1, 2, 3])
     return [dict(rng.choice(pool)) for _ in range(k)]
+
+
+def gen_nested_bioconsert(rng: random.Random, depth: int = 2) -> dict:
+    """BioConsert whose starters may themselves be BioConsert instances with their own starters (they all share the
+    full name "BioConsert"), PickAPerm, Borda, ... - nested delegation of predicate and refusal."""
+    starters = []
+    for _ in range(rng.choice([1, 2, 2, 3])):
+        r = rng.random()
+        if depth > 0 and r < 0.45:
+            starters.append(gen_nested_bioconsert(rng, depth - 1) if rng.random() < 0.7
+                            else {"alg": "BioConsert", "starters": []})
+        else:
+            starters.append(dict(rng.choice(SIMPLE_STARTERS)))
+    return {"alg": "BioConsert", "starters": starters}
 
 
 def gen_alg(rng: random.Random, env: str, heavy_ok: bool = True) -> dict:
